@@ -255,6 +255,10 @@ theorem snocView_append_singleton {α : Type} (s : List α) (x : α) :
 /-- `[x; n]` -/
 @[inline] def repeatN {α : Type} (x : α) (n : Nat) : List α := List.replicate n x
 
+/-- `char::len_utf8` -/
+@[inline] def charLenUtf8 (c : Nat) : Nat :=
+  if c < 0x80 then 1 else if c < 0x800 then 2 else if c < 0x10000 then 3 else 4
+
 /-- `char::from_u32_unchecked` / `transmute::<u32, char>`: ub unless a scalar value -/
 @[inline] def charFromU32Unchecked {ε : Type} (n : Nat) : Ctl ε Nat :=
   if n < 0xD800 ∨ (0xE000 ≤ n ∧ n ≤ 0x10FFFF) then .val n else .ub
